@@ -251,7 +251,7 @@ def run_unit(ctx, proofs_ok):
     ]
     with C.Threads():
         coll = C.Collector(ctx, "C04", "sched")
-        nx = C.budget(ctx, 2, 7)
+        nx = C.budget(ctx, 2, 16)
         unit = {}
         unit.update(_fjsp_part(ctx, rng, torch, nx, coll))
         unit.update(_ffsp_part(ctx, rng, torch, 2 * nx, coll))
